@@ -61,6 +61,16 @@
 # include <systemd/sd-daemon.h>
 #endif
 
+#ifdef IODINE_VERIF
+/* Verification hooks (off in every normal build): the header comes from the
+   verification harness, see /verif/harness/iodined_verif.h */
+#include "iodined_verif.h"
+#else
+#define VERIF_WRITE_DNS_HOOK(fd, q, data, datalen, downenc) 0
+#define VERIF_DISPATCH_HINT(in, q, domain_len)
+#define VERIF_USERID_HINT(userid)
+#endif
+
 #ifdef WINDOWS32
 WORD req_version = MAKEWORD(2, 2);
 WSADATA wsa_data;
@@ -780,6 +790,7 @@ handle_null_request(int tun_fd, int dns_fd, struct dnsfd *dns_fds, struct query 
 		return;
 
 	memcpy(in, q->name, MIN(domain_len, sizeof(in)));
+	VERIF_DISPATCH_HINT(in, q, domain_len);
 
 	if (in[0] == 'V' || in[0] == 'v') {
 		int version = 0;
@@ -868,6 +879,7 @@ handle_null_request(int tun_fd, int dns_fd, struct dnsfd *dns_fds, struct query 
 
 		/* Login phase, handle auth */
 		userid = unpacked[0];
+		VERIF_USERID_HINT(userid);
 
 		if (check_user_and_ip(userid, q) != 0) {
 			write_dns(dns_fd, q, "BADIP", 5, 'T');
@@ -910,6 +922,7 @@ handle_null_request(int tun_fd, int dns_fd, struct dnsfd *dns_fds, struct query 
 		int length;
 
 		userid = b32_8to5(in[1]);
+		VERIF_USERID_HINT(userid);
 		if (check_authenticated_user_and_ip(userid, q) != 0) {
 			write_dns(dns_fd, q, "BADIP", 5, 'T');
 			return; /* illegal id */
@@ -950,6 +963,7 @@ handle_null_request(int tun_fd, int dns_fd, struct dnsfd *dns_fds, struct query 
 		}
 
 		userid = b32_8to5(in[1]);
+		VERIF_USERID_HINT(userid);
 
 		if (check_authenticated_user_and_ip_and_options(userid, q) != 0) {
 			write_dns(dns_fd, q, "BADIP", 5, 'T');
@@ -991,6 +1005,7 @@ handle_null_request(int tun_fd, int dns_fd, struct dnsfd *dns_fds, struct query 
 		}
 
 		userid = b32_8to5(in[1]);
+		VERIF_USERID_HINT(userid);
 
 		if (check_authenticated_user_and_ip_and_options(userid, q) != 0) {
 			write_dns(dns_fd, q, "BADIP", 5, 'T');
@@ -1120,6 +1135,7 @@ handle_null_request(int tun_fd, int dns_fd, struct dnsfd *dns_fds, struct query 
 
 		/* Downstream fragsize probe packet */
 		userid = (b32_8to5(in[1]) >> 1) & 15;
+		VERIF_USERID_HINT(userid);
 		if (check_authenticated_user_and_ip(userid, q) != 0) {
 			write_dns(dns_fd, q, "BADIP", 5, 'T');
 			return; /* illegal id */
@@ -1155,6 +1171,7 @@ handle_null_request(int tun_fd, int dns_fd, struct dnsfd *dns_fds, struct query 
 
 		/* Downstream fragsize packet */
 		userid = unpacked[0];
+		VERIF_USERID_HINT(userid);
 		if (check_authenticated_user_and_ip_and_options(userid, q) != 0) {
 			write_dns(dns_fd, q, "BADIP", 5, 'T');
 			return; /* illegal id */
@@ -1189,6 +1206,7 @@ handle_null_request(int tun_fd, int dns_fd, struct dnsfd *dns_fds, struct query 
 
 		/* Ping packet, store userid */
 		userid = unpacked[0];
+		VERIF_USERID_HINT(userid);
 		if (check_authenticated_user_and_ip(userid, q) != 0) {
 			write_dns(dns_fd, q, "BADIP", 5, 'T');
 			return; /* illegal id */
@@ -1318,6 +1336,7 @@ handle_null_request(int tun_fd, int dns_fd, struct dnsfd *dns_fds, struct query 
 			code = in[0] - 'A' + 10;
 
 		userid = code;
+		VERIF_USERID_HINT(userid);
 		/* Check user and sending ip number */
 		if (check_authenticated_user_and_ip(userid, q) != 0) {
 			write_dns(dns_fd, q, "BADIP", 5, 'T');
@@ -2013,6 +2032,7 @@ raw_decode(char *packet, int len, struct query *q, int dns_fd, struct dnsfd *dns
 	if (memcmp(packet, raw_header, RAW_HDR_IDENT_LEN)) return 0;
 
 	raw_user = RAW_HDR_GET_USR(packet);
+	VERIF_USERID_HINT(raw_user);
 	switch (RAW_HDR_GET_CMD(packet)) {
 	case RAW_HDR_CMD_LOGIN:
 		/* Login challenge */
@@ -2190,6 +2210,9 @@ write_dns(int fd, struct query *q, const char *data, int datalen, char downenc)
 {
 	char buf[64*1024];
 	int len = 0;
+
+	if (VERIF_WRITE_DNS_HOOK(fd, q, data, datalen, downenc))
+		return;
 
 	if (q->type == T_CNAME || q->type == T_A) {
 		char cnamebuf[1024];		/* max 255 */
